@@ -266,7 +266,18 @@ def make_incon(rng, geo, nvar):
     inc = t2i.t2incon()
     # TOUGHREACT-flavoured sets carry a permeability triple per block: part of the block's state
     react = rng.random() < 0.4
-    for n in geo.block_name_list:
+    # the set of states need not list its blocks in the geometry's order (a restart file edited, sorted, or with the
+    # atmosphere blocks put last): what a block starts from is looked up by name
+    names = list(geo.block_name_list)
+    order = rng.choice(['geometry', 'geometry', 'reversed', 'shuffled', 'atmosphere-last'])
+    if order == 'reversed':
+        names.reverse()
+    elif order == 'shuffled':
+        rng.shuffle(names)
+    elif order == 'atmosphere-last':
+        natm = [1, geo.num_columns, 0][geo.atmosphere_type]
+        names = names[natm:] + names[:natm]
+    for n in names:
         perm = [round(rng.uniform(1e-16, 1e-12), 18) for _ in range(3)] if react else None
         inc[n] = t2i.t2blockincon([round(rng.uniform(1e5, 1e7), 1)] + [round(rng.uniform(10, 300), 3) for _ in range(nvar - 1)], n,
                                   porosity=rng.choice([None, 0.1, round(rng.uniform(0.01, 0.4), 4)]), permeability=perm)
@@ -444,12 +455,13 @@ def check_model_transfer(ctx, S, case):
         with ctx.guard(case, where='model-transfer:incon-file') as gd2:
             a, b = R.t2incons.t2incon(fin), R.t2incons.t2incon(fout)
             ctx.count('model_transfers_with_incon_file')
-            va = [(x.block, [float(v) for v in x.variable]) for x in a]
-            vb = [(x.block, [float(v) for v in x.variable]) for x in b]
+            # (block by block: the source set may list its blocks in any order, the result follows the target geometry)
+            va = dict((x.block, [float(v) for v in x.variable]) for x in a)
+            vb = dict((x.block, [float(v) for v in x.variable]) for x in b)
             if va != vb:
-                k = next((i for i, (p, q) in enumerate(zip(va, vb)) if p != q), min(len(va), len(vb)))
-                ctx.violation('model-transfer:incon-file', 'identity transfer of the initial conditions file: %d states in, %d out; first difference %r vs %r' % (
-                    len(va), len(vb), va[k] if k < len(va) else None, vb[k] if k < len(vb) else None), case)
+                k = next((n for n in sorted(set(va) | set(vb)) if va.get(n) != vb.get(n)), None)
+                ctx.violation('model-transfer:incon-file', 'identity transfer of the initial conditions file: %d states in, %d out; block %r: %r vs %r' % (
+                    len(va), len(vb), k, va.get(k), vb.get(k)), case)
 
     def sig(d, cats):
         out = []
